@@ -138,7 +138,8 @@ def make_wrapper(inner, mutate, rec, fault_at=None, fault_box=None):
                  "active": [dict(station_id=a.station_id, session_id=a.session_id, requested=a.requested_energy,
                                  delivered=a.energy_delivered, arrival=a.arrival, departure=a.departure,
                                  est=a.estimated_departure, now=a.current_time,
-                                 amp_periods=i.remaining_amp_periods(a)) for a in active],
+                                 amp_periods=i.remaining_amp_periods(a), rem_demand=getattr(a, "remaining_demand", None),
+                                 rem_time=getattr(a, "remaining_time", None), arr_off=getattr(a, "arrival_offset", None)) for a in active],
                  "last_rate": dict(i.last_actual_charging_rate), "last_pilot": dict(i.last_applied_pilot_signals),
                  "peak": i.get_prev_peak()}
             info = i.infrastructure_info()
@@ -427,6 +428,16 @@ def run_case(case, obs):
             if (a["station_id"], a["requested"], a["arrival"], a["departure"], a["est"], a["now"]) != \
                     (s["station"], s["requested"], s["arrival"], s["departure"], s["est_dep"], t):
                 obs.violate("observed_session_fields", f"period {t} session {sid}: {a}", **w)
+            # the derived quantities a session object documents: demand still to be met, periods until departure (0 once overdue),
+            # periods until arrival (0 for a connected car)
+            if a.get("rem_demand") is not None:
+                obs.ev("derived_session_quantities_judged")
+                if not (abs(a["rem_demand"] - (s["requested"] - dl)) <= 1e-9 * max(1.0, abs(s["requested"]))):
+                    obs.violate("observed_session_fields", f"period {t} session {sid}: remaining_demand {a['rem_demand']!r}, requested - delivered = {s['requested'] - dl!r}", **w)
+            if a.get("rem_time") is not None and a["rem_time"] != max(min(s["departure"] - s["arrival"], s["departure"] - t), 0):
+                obs.violate("observed_session_fields", f"period {t} session {sid}: remaining_time {a['rem_time']!r} (arrival {s['arrival']}, departure {s['departure']})", **w)
+            if a.get("arr_off") is not None and a["arr_off"] != max(s["arrival"] - t, 0):
+                obs.violate("observed_session_fields", f"period {t} session {sid}: arrival_offset {a['arr_off']!r} (arrival {s['arrival']})", **w)
             ap = (s["requested"] - dl) * 1000.0 / st_of[s["station"]]["voltage"] * 60.0 / per
             if not (abs(a["amp_periods"] - ap) <= 1e-9 * max(1.0, abs(ap))):
                 obs.violate("remaining_amp_periods", f"period {t} session {sid}: {a['amp_periods']!r} expected {ap!r}", **w)
